@@ -198,3 +198,60 @@ func rangeOverField(in ssa.Instruction) (fieldRef, *ssa.Range, bool) {
 	fr, ok := asLoadedField(r.X)
 	return fr, r, ok
 }
+
+// litField finds the value assigned to a (possibly nested) field of the object that
+// pointer obj denotes, looking through composite-literal temporaries: either a chain
+// of FieldAddr stores, or a whole-struct store of a local struct cell whose fields
+// were stored individually. Returns nil if not found or ambiguous.
+func litField(fn *ssa.Function, obj ssa.Value, path ...string) ssa.Value {
+	if len(path) == 0 {
+		return nil
+	}
+	var found ssa.Value
+	n := 0
+	eachInstr(fn, func(in ssa.Instruction) {
+		st, ok := in.(*ssa.Store)
+		if !ok {
+			return
+		}
+		fa, ok := st.Addr.(*ssa.FieldAddr)
+		if !ok || fa.X != obj {
+			return
+		}
+		_, name := structFieldName(fa.X.Type(), fa.Field)
+		if name != path[0] {
+			return
+		}
+		n++
+		if len(path) == 1 {
+			found = st.Val
+			return
+		}
+		// struct value copied from a local literal cell
+		if u, ok := st.Val.(*ssa.UnOp); ok && u.Op == token.MUL {
+			if cell, ok := u.X.(*ssa.Alloc); ok {
+				found = litField(fn, cell, path[1:]...)
+			}
+		}
+	})
+	if found != nil && n == 1 {
+		return found
+	}
+	if len(path) > 1 {
+		// direct nested address chain: &obj.f.g
+		var sub ssa.Value
+		eachInstr(fn, func(in ssa.Instruction) {
+			if fa, ok := in.(*ssa.FieldAddr); ok && fa.X == obj {
+				if _, name := structFieldName(fa.X.Type(), fa.Field); name == path[0] {
+					if v := litField(fn, fa, path[1:]...); v != nil {
+						sub = v
+					}
+				}
+			}
+		})
+		if sub != nil {
+			return sub
+		}
+	}
+	return nil
+}
